@@ -160,24 +160,45 @@ theorem no_route_outside_tables :
     (h2hMounted.all (hasAuth .helper)) = true ∧ (s2sMounted.all (hasAuth .shard)) = true := by
   decide
 
-/-- **header_only_without_tls** (the four regenerated arms of `start_on`): the header layer is
-installed exactly when https is disabled, and the certificate-recognising TLS acceptor exactly when
-it is enabled. -/
+/-- What the property demands of the arm `(disable_https, listener)` of `start_on`: the header
+layer exactly when https is disabled, the certificate-recognising TLS acceptor exactly when enabled. -/
+def wantedArm (d l : Bool) : StartArm :=
+  { disableHttps := d, listener := l, headerLayer := d, tlsAcceptor := !d, recognised := true }
+
+/-! One `decide` per regenerated arm of `start_on`, so that a broken arm is named by the failing
+theorem (`listener = false` is the self-bound server: `start_on(.., None, ..)`, the helper binary's
+default path, which no in-crate test executes). -/
+theorem arm_tls_prebound : armFor false true = some (wantedArm false true) := by decide
+theorem arm_tls_selfbound : armFor false false = some (wantedArm false false) := by decide
+theorem arm_plain_prebound : armFor true true = some (wantedArm true true) := by decide
+theorem arm_plain_selfbound : armFor true false = some (wantedArm true false) := by decide
+
+theorem armFor_eq (d l : Bool) : armFor d l = some (wantedArm d l) := by
+  cases d <;> cases l
+  · exact arm_tls_selfbound
+  · exact arm_tls_prebound
+  · exact arm_plain_selfbound
+  · exact arm_plain_prebound
+
+/-- **header_only_without_tls** (the four regenerated arms of `start_on`, pre-bound and self-bound):
+the header layer is installed exactly when https is disabled, and the certificate-recognising TLS
+acceptor exactly when it is enabled; every arm was recognised by the translator. -/
 theorem header_only_without_tls :
     startOnArms.length = 4 ∧
-    (startOnArms.all fun a => a.headerLayer == a.disableHttps && a.tlsAcceptor == !a.disableHttps) = true ∧
-    (∀ d l, (armFor d l).isSome = true) := by
-  refine ⟨by decide, by decide, ?_⟩
-  intro d l; cases d <;> cases l <;> decide
+    (startOnArms.all fun a => a.recognised && a.headerLayer == a.disableHttps && a.tlsAcceptor == !a.disableHttps) = true ∧
+    (∀ d l, armFor d l = some (wantedArm d l)) := by
+  refine ⟨by decide, by decide, armFor_eq⟩
 
-/-- **tls_ignores_header**: with `disable_https = false` the identity extension is a function of the
-client certificate only — whatever identity header the caller supplies (absent, malformed, or
-claiming any identity) has no effect; in particular no certificate ⇒ no identity ⇒ 401 on every
-h2h/s2s route. -/
+/-- **tls_ignores_header**: with `disable_https = false` — whether the listener is pre-bound or the
+server binds itself — the identity extension is a function of the client certificate only: whatever
+identity header the caller supplies (absent, malformed, or claiming any identity) has no effect; in
+particular no certificate ⇒ no identity ⇒ 401 on every h2h/s2s route. -/
 theorem tls_ignores_header {Ident : Type} (l : Bool) (a : StartArm) (ha : armFor false l = some a)
     (cert : Option Ident) (h h' : Option (Option Ident)) :
     deriveIdentity a ⟨cert, h⟩ = deriveIdentity a ⟨cert, h'⟩ ∧ deriveIdentity a ⟨cert, h⟩ = .ext cert := by
-  cases l <;> simp [armFor, startOnArms] at ha <;> subst ha <;> simp [deriveIdentity]
+  rw [armFor_eq] at ha
+  cases ha
+  simp [deriveIdentity, wantedArm]
 
 /-- Without TLS the identity is exactly what the header says (absent ⇒ none; malformed ⇒ the request
 is rejected before routing); a certificate cannot exist on such a connection and is ignored. -/
@@ -186,8 +207,166 @@ theorem plain_identity_from_header {Ident : Type} (l : Bool) (a : StartArm) (ha 
     deriveIdentity a ⟨cert, none⟩ = .ext none ∧
     deriveIdentity a ⟨cert, some none⟩ = .rejected ∧
     deriveIdentity a ⟨cert, some (some id)⟩ = .ext (some id) := by
-  cases l <;> simp [armFor, startOnArms] at ha <;> subst ha <;> simp [deriveIdentity]
+  rw [armFor_eq] at ha
+  cases ha
+  simp [deriveIdentity, wantedArm]
 
-example : armFor false true = some ⟨false, true, false, true⟩ := by decide
+example : armFor false true = some ⟨false, true, false, true, true⟩ := by decide
+
+/-! ## Whole connections (`serve`): every arm, every request -/
+
+/-- **tls_setup_ok** (regenerated from `rustls_config`): the client verifier's trust anchors are
+exactly the peers' certificates, client authentication is optional (report collectors have no
+certificate) and the verifier is installed in the rustls server config. -/
+theorem tls_setup_ok :
+    tlsSetup = { anchorsFromPeers := true, clientAuthOptional := true, verifierInstalled := true, recognised := true } := by
+  decide
+
+/-- **live_tls_ignores_header**: over a server started with https enabled (either arm), the answer to
+ANY request (any route table, path, method, certificate, client protocol) is the same whatever the
+identity header. -/
+theorem live_tls_ignores_header {Ident : Type} (l : Bool) (a : StartArm) (ha : armFor false l = some a)
+    (f : Flavor) (routes : List Entry) (tls : Bool) (cert : ClientCert Ident)
+    (h h' : Option (Option Ident)) (path : List String) (m : Method) :
+    serve f routes a ⟨tls, cert, h⟩ path m = serve f routes a ⟨tls, cert, h'⟩ path m := by
+  rw [armFor_eq] at ha
+  cases ha
+  simp [serve, serveWith, deriveIdentity, wantedArm]
+
+/-- **live_requires_verified_identity**: on a server started through ANY of the four arms, a request
+matching a route of `h2h_router` (MPC server) / `s2s_router` (shard server) from a client that
+presents no certificate of a configured peer (https) resp. no identity header (plain http) gets no
+answer other than 401 (or no HTTP answer at all). -/
+theorem live_requires_verified_identity {Ident : Type} (d l : Bool) (a : StartArm) (ha : armFor d l = some a)
+    (tls : Bool) (cert : ClientCert Ident) (h : Option (Option Ident)) (path : List String) (m : Method)
+    (hno : if d then h = none else cert.identity = none) :
+    (∀ pe ∈ h2hMounted, matchPath pe.path path = true → pe.method = m →
+        serve .helper (flatten mpcRouter) a ⟨tls, cert, h⟩ path m = .connErr ∨
+        serve .helper (flatten mpcRouter) a ⟨tls, cert, h⟩ path m = .resp .unauthorized) ∧
+    (∀ pe ∈ s2sMounted, matchPath pe.path path = true → pe.method = m →
+        serve .shard (flatten shardRouter) a ⟨tls, cert, h⟩ path m = .connErr ∨
+        serve .shard (flatten shardRouter) a ⟨tls, cert, h⟩ path m = .resp .unauthorized) := by
+  rw [armFor_eq] at ha
+  cases ha
+  have key : ∀ (f : Flavor) (routes : List Entry),
+      serve f routes (wantedArm d l) ⟨tls, cert, h⟩ path m = .connErr ∨
+      serve f routes (wantedArm d l) ⟨tls, cert, h⟩ path m
+        = .resp (respond routes ⟨path, m, false, false⟩) := by
+    intro f routes
+    cases d
+    · -- https: the header layer is absent, the identity is the certificate's
+      simp only [Bool.false_eq_true, if_false] at hno
+      cases tls <;> cases cert <;> simp_all [serve, serveWith, handshake, tls_setup_ok, deriveIdentity, wantedArm, ClientCert.identity]
+    · -- plain http: no certificate is looked at, the header is absent
+      simp only [if_true] at hno
+      subst hno
+      cases tls <;> simp [serve, serveWith, deriveIdentity, wantedArm]
+  refine ⟨?_, ?_⟩
+  · intro pe hpe hm hmeth
+    rcases key .helper (flatten mpcRouter) with hk | hk
+    · exact Or.inl hk
+    · refine Or.inr ?_
+      rw [hk]
+      exact congrArg _ ((h2h_s2s_require_identity ⟨path, m, false, false⟩).1 pe hpe hm hmeth rfl)
+  · intro pe hpe hm hmeth
+    rcases key .shard (flatten shardRouter) with hk | hk
+    · exact Or.inl hk
+    · refine Or.inr ?_
+      rw [hk]
+      exact congrArg _ ((h2h_s2s_require_identity ⟨path, m, false, false⟩).2 pe hpe hm hmeth rfl)
+
+/-- the hypotheses are satisfiable and the conclusion is not vacuous: the mutation tester's request
+(https, self-bound, no certificate, header claiming helper 1, the step route) is answered 401 -/
+example : serve .helper (flatten mpcRouter) (wantedArm false false) ⟨true, .none, some (some 1)⟩
+    ["query", "0", "step", "protocol", "alpha"] .post = .resp .unauthorized := by decide
+
+/-! ## Report-collector routes stay reachable: every request, every arm -/
+
+def noAuth (e : Entry) : Bool := !hasAuth .helper e && !hasAuth .shard e
+
+theorem not_blocked_of_noAuth (e : Entry) (r : Req) (h : noAuth e = true) : blockedBy e.layers r = false := by
+  unfold noAuth hasAuth at h
+  unfold blockedBy
+  rw [List.any_eq_false]
+  intro l hl
+  cases l with
+  | extension => simp
+  | auth f =>
+    exfalso
+    cases f
+    · have : (e.layers.any fun x => x == Layer.auth Flavor.helper) = true :=
+        List.any_eq_true.mpr ⟨_, hl, by simp⟩
+      simp [this] at h
+    · have : (e.layers.any fun x => x == Layer.auth Flavor.shard) = true :=
+        List.any_eq_true.mpr ⟨_, hl, by simp⟩
+      simp [this] at h
+
+/-- Dispatch lemma, open side: if every entry that can serve the request carries no authentication
+layer, the request reaches a handler whatever identity it carries. -/
+theorem respond_open (table : List Entry) (r : Req) (pe : Entry)
+    (hg : (table.all fun e => !(e.method == pe.method && overlap pe.path e.path) || noAuth e) = true)
+    (hin : pe ∈ table) (hm : matchPath pe.path r.path = true) (hmeth : pe.method = r.method) :
+    ∃ h, respond table r = .handled h := by
+  unfold respond
+  cases hc : table.filter (fun e => matchPath e.path r.path) with
+  | nil =>
+    have : pe ∈ table.filter (fun e => matchPath e.path r.path) := List.mem_filter.mpr ⟨hin, hm⟩
+    rw [hc] at this
+    cases this
+  | cons c cs =>
+    simp only
+    have hpe : pe ∈ c :: cs := by rw [← hc]; exact List.mem_filter.mpr ⟨hin, hm⟩
+    cases hf : (c :: cs).find? (fun e => e.method == r.method) with
+    | none =>
+      have := List.find?_eq_none.mp hf pe hpe
+      simp [hmeth] at this
+    | some e =>
+      simp only
+      have he_mem : e ∈ c :: cs := List.mem_of_find?_eq_some hf
+      have he_meth : (e.method == r.method) = true := by
+        have := List.find?_some hf
+        simpa using this
+      rw [← hc] at he_mem
+      obtain ⟨he_tab, he_match⟩ := List.mem_filter.mp he_mem
+      have hov := overlap_of_match r.path pe.path e.path hm he_match
+      have hge := List.all_eq_true.mp hg e he_tab
+      have hmm : (e.method == pe.method) = true := by rw [hmeth]; exact he_meth
+      have hno : noAuth e = true := by
+        rw [hmm, hov] at hge
+        simpa using hge
+      exact ⟨e.handler, by simp [not_blocked_of_noAuth e r hno]⟩
+
+/-- the report-collector API as mounted in the MPC server, plus echo and metrics -/
+def collectorMounted : List Entry :=
+  flatten (.nest .new [.lit "query"] queryRouter) ++
+  flatten (.route .new [.lit "echo"] .get "echo::router:handler") ++
+  (flatten (.route .new [.lit "metrics"] .get "metrics::router:handler")).map (fun e => { e with layers := [.extension] })
+
+theorem collector_table_open :
+    (collectorMounted.all fun pe => (flatten mpcRouter).all fun e =>
+      !(e.method == pe.method && overlap pe.path e.path) || noAuth e) = true ∧
+    (collectorMounted.all fun e => (flatten mpcRouter).contains e) = true := by decide
+
+/-- **live_collector_reachable**: on an MPC server started through ANY of the four arms, a client
+that speaks the server's protocol and has neither certificate nor identity header — a report
+collector — reaches the handler of every report-collector route (any query id / parameters). -/
+theorem live_collector_reachable {Ident : Type} (d l : Bool) (a : StartArm) (ha : armFor d l = some a)
+    (path : List String) (m : Method) :
+    ∀ pe ∈ collectorMounted, matchPath pe.path path = true → pe.method = m →
+      ∃ h, serve (Ident := Ident) .helper (flatten mpcRouter) a ⟨!d, .none, none⟩ path m = .resp (.handled h) := by
+  intro pe hpe hm hmeth
+  rw [armFor_eq] at ha
+  cases ha
+  have hs : serve (Ident := Ident) .helper (flatten mpcRouter) (wantedArm d l) ⟨!d, .none, none⟩ path m
+      = .resp (respond (flatten mpcRouter) ⟨path, m, false, false⟩) := by
+    cases d <;> simp [serve, serveWith, handshake, tls_setup_ok, deriveIdentity, wantedArm]
+  have hg := List.all_eq_true.mp collector_table_open.1 pe hpe
+  have hin : pe ∈ flatten mpcRouter := by
+    have := List.all_eq_true.mp collector_table_open.2 pe hpe
+    simpa using this
+  obtain ⟨h, hh⟩ := respond_open (flatten mpcRouter) ⟨path, m, false, false⟩ pe hg hin hm hmeth
+  exact ⟨h, by rw [hs, hh]⟩
+
+example : (⟨[.lit "query", .param, .lit "complete"], .get, "query::results::router:handler::<F>", [.extension]⟩ : Entry) ∈ collectorMounted := by decide
 
 end IpaVerif.C20
